@@ -266,6 +266,8 @@ def run(ctx):
             texts += ['a%sb' % s, 'a %s b' % s, 'a %sb' % s, 'a%s b' % s, 'a%sb%sa' % (s, s), 'b %s a' % s, 'a  %s\tb - a' % s]
         if sc[:2] == [['a'], ['b']] and len(sc) == 2:
             texts += ['a%sb' % s for s in SYMS] + ['a %s b' % s for s in SYMS]
+            # U+1680, U+180E, U+FEFF are white space AND name characters (C10_char_classes): after a name character they continue the word
+            texts += ['a\u1680b', 'a\u180eb', 'a\ufeffb', 'a \u1680b', 'a+\ufeffb']
         for t in texts:
             cases.append({'scope': sc, 'bind': bind, 'env': env, 'text': t})
     impl = ctx.run_impl('ast', [{'bind': c['bind'], 'e': c['text'], 'mode': 'expr', 'eval': True} for c in cases])
@@ -378,6 +380,6 @@ def replay(ctx, path):
 
 
 MANIFEST = dict(
-    technique='Coq proof (longest-prefix loop of the name lexer for all key sets and inputs; normaliser agreement) with lexer/model correspondence',
-    text='coq/Props/C10.v: for every set of scope keys and every input the modelled name lexer returns the longest bound prefix of the collected name parts and resumes right after it (else the whole candidate); the two name normalisers are compared. The model (part-collecting state machine, position bookkeeping, back-tracking) is tied to lexer.rs by comparing token streams and evaluated values on generated scopes and spellings, then the resolved names are placed in every expression position and introduced by binders.',
+    technique='Coq proof (longest-prefix loop of the name lexer, layout invariant of the part collector and uniqueness of the reading, for all key sets and inputs; normaliser agreement) with lexer/model correspondence',
+    text='coq/Props/C10.v: for every set of scope keys and every input the modelled name lexer returns the longest bound prefix of the collected name parts and resumes right after it (else the whole candidate), for both values of the for/some/every flag with the `item` and `in` tweaks characterised exactly (C10_lex_name_cases); for every input the collected parts are non-empty, do not overlap, are separated by white space only, and consumed text ++ rest = input after any chosen prefix, so no character is lost or read twice (C10_parts_disjoint, C10_gaps_whitespace, C10_backtrack_no_loss, C10_lex_name_no_loss); every part is a maximal word or one additional symbol and any bound name written at the position with any spacing is a prefix of the collected parts, so no bound name written there is longer than the token (C10_collect_shape, C10_longest_written; hypothesis: the input has none of U+1680, U+180E, U+FEFF, which are white space and name characters at once, C10_char_classes); the two name normalisers are compared. The model (part-collecting state machine, position bookkeeping, back-tracking) is tied to lexer.rs by comparing token streams and evaluated values on generated scopes and spellings, then the resolved names are placed in every expression position and introduced by binders.',
     note='Trusted: Coq kernel + vm_compute, hand-written model of consume_name / Name::new / flatten_name_parts (correspondence-checked), harness dv ast, arithmetic oracle over the bound integers.')
